@@ -31,6 +31,14 @@ class XState:
         self.pl = z3.Array("xml.pl", z3.IntSort(), z3.IntSort())
         self.N0 = z3.Int("xml.N0")
         self.nfresh = 0
+        self.extra = {}          # further per-node ghost arrays (name -> array), copied by clone
+
+    def copy_ghost(self, dst, src):
+        """a deep copy of node `src` as node `dst`: every per-node ghost attribute is copied"""
+        self.rep = z3.Store(self.rep, dst, z3.Select(self.rep, src))
+        self.pl = z3.Store(self.pl, dst, z3.Select(self.pl, src))
+        for k, arr in list(self.extra.items()):
+            self.extra[k] = z3.Store(arr, dst, z3.Select(arr, src))
 
     def fresh_node(self):
         n = self.N0 + self.nfresh
